@@ -6,6 +6,7 @@ import (
 	"fmt"
 	"math/rand"
 	"os"
+	"os/exec"
 	"path/filepath"
 	"strings"
 
@@ -54,6 +55,7 @@ type Case struct {
 	Runs   [][]int `json:"runs"`
 	Fresh  []bool  `json:"fresh"` // Fresh[i]: run i is executed in a fresh OS process
 	Layout int     `json:"layout"`
+	Cli    bool    `json:"cli"` // the first run is (also) made through the coca binary; its observation is appended as an extra run
 }
 
 type ApiObs struct {
@@ -65,9 +67,20 @@ type ApiObs struct {
 	Method string `json:"method"`
 }
 
+type CsvRow struct {
+	Verb   string `json:"verb"`
+	Uri    string `json:"uri"`
+	Caller string `json:"caller"`
+}
+
 type RunObs struct {
 	Panic bool     `json:"panic"`
 	Apis  []ApiObs `json:"apis"`
+	// Cli: this run went through the binary (`coca analysis -p DIR`, `coca api -f -p DIR` in a fresh working directory);
+	// Apis is then read from coca_reporter/apis.json and Csv from coca_reporter/api.csv (CsvOk: it was there and well-formed)
+	Cli   bool     `json:"cli"`
+	CsvOk bool     `json:"csvOk"`
+	Csv   []CsvRow `json:"csv"`
 	Note  string   `json:"note,omitempty"`
 }
 
@@ -169,8 +182,82 @@ func render(f File, layout int) string {
 	return b.String()
 }
 
+// runCli: the command line route of run ri (the files of that run, same directory layout)
+func runCli(c Case, ri int, scratch string) RunObs {
+	o := RunObs{Apis: []ApiObs{}, Csv: []CsvRow{}, Cli: true}
+	work := filepath.Join(scratch, fmt.Sprintf("cli%d", ri))
+	dir := filepath.Join(work, "proj")
+	for i, k := range c.Runs[ri] {
+		f := c.Files[k-1]
+		d := filepath.Join(dir, fmt.Sprintf("f%02d", i), filepath.FromSlash(strings.ReplaceAll(f.Pkg, ".", "/")))
+		os.MkdirAll(d, 0o755)
+		os.WriteFile(filepath.Join(d, f.Cls+".java"), []byte(render(f, c.Layout)), 0o644)
+	}
+	coca := os.Getenv("VERIF_COCA")
+	run := func(args ...string) (string, error) {
+		cmd := exec.Command(coca, args...)
+		cmd.Dir = work
+		cmd.Env = append(os.Environ(), "TMPDIR="+work)
+		b, err := cmd.CombinedOutput()
+		return string(b), err
+	}
+	if out, err := run("analysis", "-p", "proj"); err != nil {
+		return RunObs{Panic: true, Cli: true, Apis: []ApiObs{}, Csv: []CsvRow{}, Note: "coca analysis: " + err.Error() + " " + tailStr(out)}
+	}
+	if out, err := run("api", "-f", "-p", "proj"); err != nil {
+		return RunObs{Panic: true, Cli: true, Apis: []ApiObs{}, Csv: []CsvRow{}, Note: "coca api: " + err.Error() + " " + tailStr(out)}
+	}
+	var apis []struct {
+		Uri, HttpMethod, MethodName, RequestBodyClass, PackageName, ClassName string
+	}
+	if b, err := os.ReadFile(filepath.Join(work, "coca_reporter", "apis.json")); err == nil && json.Unmarshal(b, &apis) == nil {
+		for _, a := range apis {
+			o.Apis = append(o.Apis, ApiObs{Verb: a.HttpMethod, Uri: a.Uri, Body: a.RequestBodyClass, Pkg: a.PackageName, Cls: a.ClassName, Method: a.MethodName})
+		}
+	} else {
+		o.Note += "apis.json missing or malformed; "
+		o.Panic = true
+	}
+	// api.csv: a padded comma table: header SIZE, METHOD, URI, CALLER; a blank line; one line per API
+	if b, err := os.ReadFile(filepath.Join(work, "coca_reporter", "api.csv")); err == nil {
+		o.CsvOk = true
+		lines := strings.Split(strings.TrimRight(string(b), "\n"), "\n")
+		for li, ln := range lines {
+			if strings.TrimSpace(ln) == "" {
+				continue
+			}
+			cells := strings.Split(ln, ",")
+			for i := range cells {
+				cells[i] = strings.TrimSpace(cells[i])
+			}
+			if len(cells) != 4 {
+				o.CsvOk = false
+				o.Note += fmt.Sprintf("api.csv line %d has %d cells; ", li+1, len(cells))
+				continue
+			}
+			if li == 0 {
+				if strings.ToUpper(cells[1]) != "METHOD" || strings.ToUpper(cells[2]) != "URI" {
+					o.CsvOk = false
+				}
+				continue
+			}
+			o.Csv = append(o.Csv, CsvRow{Verb: cells[1], Uri: cells[2], Caller: cells[3]})
+		}
+	} else {
+		o.Note += "api.csv missing; "
+	}
+	return o
+}
+
+func tailStr(s string) string {
+	if len(s) > 300 {
+		return s[len(s)-300:]
+	}
+	return s
+}
+
 func runOnce(c Case, ri int, scratch string) RunObs {
-	o := RunObs{Apis: []ApiObs{}}
+	o := RunObs{Apis: []ApiObs{}, Csv: []CsvRow{}}
 	dir := filepath.Join(scratch, fmt.Sprintf("run%d", ri))
 	for i, k := range c.Runs[ri] {
 		f := c.Files[k-1]
@@ -199,7 +286,7 @@ func runOnce(c Case, ri int, scratch string) RunObs {
 		}
 	})
 	if p {
-		o = RunObs{Panic: true, Apis: []ApiObs{}, Note: msg}
+		o = RunObs{Panic: true, Apis: []ApiObs{}, Csv: []CsvRow{}, Note: msg}
 	}
 	return o
 }
@@ -241,13 +328,19 @@ func one(raw json.RawMessage) interface{} {
 				err = json.Unmarshal(raw, &sr)
 			}
 			if err != nil || len(sr.Observed) != 1 {
-				rec.Observed = append(rec.Observed, RunObs{Panic: true, Apis: []ApiObs{}, Note: fmt.Sprint("fresh run failed: ", err)})
+				rec.Observed = append(rec.Observed, RunObs{Panic: true, Apis: []ApiObs{}, Csv: []CsvRow{}, Note: fmt.Sprint("fresh run failed: ", err)})
 			} else {
 				rec.Observed = append(rec.Observed, sr.Observed[0])
 			}
 			continue
 		}
 		rec.Observed = append(rec.Observed, runOnce(c, ri, scratch))
+	}
+	if c.Cli && len(c.Runs) > 0 && os.Getenv("VERIF_COCA") != "" {
+		// an extra run: the files of run 1 through the command line
+		rec.Runs = append(append([][]int{}, c.Runs...), c.Runs[0])
+		rec.Fresh = append(append([]bool{}, c.Fresh...), true)
+		rec.Observed = append(rec.Observed, runCli(c, 0, scratch))
 	}
 	return rec
 }
@@ -258,7 +351,7 @@ func abnormal(raw json.RawMessage, timeout bool, stderr string) interface{} {
 	norm(&c)
 	rec := Record{Case: c.Case, Files: c.Files, Runs: c.Runs, Fresh: c.Fresh, Layout: c.Layout}
 	for range c.Runs {
-		rec.Observed = append(rec.Observed, RunObs{Panic: true, Apis: []ApiObs{}, Note: "process died: " + stderr})
+		rec.Observed = append(rec.Observed, RunObs{Panic: true, Apis: []ApiObs{}, Csv: []CsvRow{}, Note: "process died: " + stderr})
 	}
 	return rec
 }
@@ -354,6 +447,14 @@ func gen(seed int64, n int, tier string) []interface{} {
 			}
 			c.Runs = append(c.Runs, p)
 			c.Fresh = append(c.Fresh, j > 0 && r.Intn(2) == 0)
+		}
+		// the command line builds the identifier map from the project's own files: only for projects without the
+		// imported-interface scenario, whose interface lives outside the rendered tree
+		c.Cli = r.Intn(2) == 0
+		for _, f := range c.Files {
+			if f.Impl {
+				c.Cli = false
+			}
 		}
 		out = append(out, c)
 	}
